@@ -34,6 +34,15 @@ def accessor(diag, frame, Rg):
     return frame.meanstress_transform.five_segment(pd.Series(dict(zip(['M0', 'M1', 'M2', 'M3', 'M4', 'R12', 'R23'], d[1:]))), Rg).amplitude.to_numpy()
 
 
+def accessor_keyed(diag, frame, Rg):
+    """Like accessor(), but returns the transformed amplitudes keyed by the frame's index labels."""
+    import pylife.strength.meanstress  # noqa
+    d = DIAG[diag]
+    if d[0] == 'g':
+        return frame.meanstress_transform.fkm_goodman(pd.Series({'M': d[1], 'M2': d[2]}), Rg).amplitude
+    return frame.meanstress_transform.five_segment(pd.Series(dict(zip(['M0', 'M1', 'M2', 'M3', 'M4', 'R12', 'R23'], d[1:]))), Rg).amplitude
+
+
 def _replay(args):
     blocks, fs, seed = args
     rng = random.Random(seed)
@@ -59,6 +68,13 @@ def _replay(args):
                 acc = accessor(dg, frame, Rg)
                 ft = pd.DataFrame({'from': np.asarray(mean) - np.asarray(amp), 'to': np.asarray(mean) + np.asarray(amp)})
                 acc2 = accessor(dg, ft, Rg)
+                # the same collective with its rows (element ids) in another order: every element keeps its own result
+                perm = list(range(len(amp)))
+                rng.shuffle(perm)
+                keyed = accessor_keyed(dg, frame.iloc[perm], Rg)
+                if not (set(keyed.index) == set(frame.index) and close(keyed.reindex(frame.index).to_numpy(), acc, 1e-12)):
+                    viol.append(('the collective with its rows in another order gives an element another transformed amplitude', {'diagram': DIAG[dg], 'R_goal': Rg, 'row_permutation': perm[:8]},
+                                 np.asarray(acc).tolist()[:4], keyed.reindex(frame.index).to_numpy().tolist()[:4]))
             except Exception as ex:
                 viol.append(('mean stress transformation raised %r' % ex, {'diagram': DIAG[dg], 'R_goal': Rg, 'amplitude': amp, 'mean': mean}, None, None))
                 continue
